@@ -50,7 +50,11 @@ def _sha(b):
 
 
 def gen_dir(variant):
-    return os.path.join(WORK, "gen", variant)
+    # the generated header names the source directory: checks that run on another tree (VERIF_REPO: selftest scratch copies) get their own
+    # directory, otherwise concurrent runs on different trees would keep rewriting one shared header under each other's extractors
+    if REPO == "/repo":
+        return os.path.join(WORK, "gen", variant)
+    return os.path.join(WORK, "gen", "%s-%s" % (variant, hashlib.sha256(REPO.encode()).hexdigest()[:12]))
 
 
 def make_gen(variant):
@@ -88,8 +92,10 @@ def make_gen(variant):
 def _write_if_changed(path, text):
     if os.path.isfile(path) and open(path).read() == text:
         return
-    with open(path, "w") as f:
+    tmp = "%s.%d.tmp" % (path, os.getpid())     # atomic: a concurrent reader never sees a truncated header
+    with open(tmp, "w") as f:
         f.write(text)
+    os.replace(tmp, path)
 
 
 def flags(variant):
@@ -151,17 +157,24 @@ def _run_unit(args):
                 return (unit, out, True, "")
         except Exception:
             pass
-    cmd = [EXTRACTOR, "-o", out, "--root", REPO + "/", "--extra-root", gen_dir(variant) + "/", unit, "--"] + flags(variant)[1:]
+    tmp_out = "%s.%d.tmp" % (out, os.getpid())    # written aside and renamed: concurrent checks may extract the same unit
+    cmd = [EXTRACTOR, "-o", tmp_out, "--root", REPO + "/", "--extra-root", gen_dir(variant) + "/", unit, "--"] + flags(variant)[1:]
     p = subprocess.run(cmd, stdout=subprocess.PIPE, stderr=subprocess.PIPE, text=True)
-    if p.returncode != 0 or not os.path.isfile(out):
+    if p.returncode != 0 or not os.path.isfile(tmp_out):
+        if os.path.isfile(tmp_out):
+            os.remove(tmp_out)
         return (unit, out, False, "extractor failed on %s:\n%s" % (unit, p.stderr[-3000:]))
+    os.replace(tmp_out, out)
     # dependency list from the facts file (cheap scan of the head)
     with open(out) as f:
         data = json.load(f)
     deps = [d for d in data.get("deps", []) if _relevant(d, variant)]
     if unit not in deps:
         deps.append(unit)
-    json.dump({"deps": deps, "hash": _deps_hash(deps, variant)}, open(stamp, "w"))
+    tmp_stamp = "%s.%d.tmp" % (stamp, os.getpid())
+    with open(tmp_stamp, "w") as f:
+        json.dump({"deps": deps, "hash": _deps_hash(deps, variant)}, f)
+    os.replace(tmp_stamp, stamp)
     return (unit, out, False, "")
 
 
